@@ -338,7 +338,9 @@ fn run(plan: &Plan, ctx: &mut Ctx) -> R {
     let mut history: Vec<Resolved> = Vec::new();
     let mut audited: BTreeSet<usize> = BTreeSet::new();
     let (mut sig_a, mut sig_b) = (BTreeMap::new(), BTreeMap::new());
-    let size_cap = plan.get_or("size_cap", if compress { 4000 } else { 300 }) as u64;
+    // (the wide-node runs are made of a handful of deliberately large operations: no size caps there)
+    let wide_chain = plan.get_or("wide_chain", 0) != 0;
+    let size_cap = if wide_chain { u64::MAX / 4 } else { plan.get_or("size_cap", if compress { 4000 } else { 300 }) as u64 };
     let mut tsz: BTreeMap<usize, u64> = BTreeMap::new();
     let mut big: Vec<bool> = Vec::new();
     let mut tsz_of: Vec<u64> = Vec::new();
@@ -378,11 +380,11 @@ fn run(plan: &Plan, ctx: &mut Ctx) -> R {
             let sz = |j: usize| tsz_of[resolve(op.a[j], caller, &own, n)].max(1);
             let work: u64 = match kind {
                 K_ITE => sz(0).saturating_mul(sz(1)).saturating_mul(sz(0).saturating_mul(sz(2))),
-                K_XOR | K_IFF => product.saturating_mul(product),
+                K_XOR | K_IFF | K_COMPOSE => product.saturating_mul(product).saturating_mul(4),
                 K_EXISTS => sz(0).saturating_mul(sz(0)),
                 _ => product,
             };
-            if (0..nops).any(|j| big[resolve(op.a[j], caller, &own, n)]) || (!compress && work > 40_000) || product > 250_000 {
+            if (0..nops).any(|j| big[resolve(op.a[j], caller, &own, n)]) || (!compress && work > 40_000) || (product > 250_000 && !wide_chain) {
                 kind = K_VAR;
                 r.kind = K_VAR;
                 ctx.count("operand-too-big-degraded-to-var", 1);
@@ -396,7 +398,11 @@ fn run(plan: &Plan, ctx: &mut Ctx) -> R {
                 // only vtrees that split near the middle keep such a conjunction one wide node; on linear or random vtrees
                 // far-apart pairs make it exponential, so a single pair is used there
                 let kmax = if matches!(plan.get("vt_shape"), 2 | 3) { 6 } else { 1 };
-                r.chain = (1 + op.a[0].unsigned_abs() as usize % kmax + (kmax > 1) as usize, op.a[1].unsigned_abs() as usize)
+                r.chain = if plan.get_or("wide_chain", 0) != 0 {
+                    ((op.a[0].unsigned_abs() as usize).clamp(1, 11), op.a[1].unsigned_abs() as usize)
+                } else {
+                    (1 + op.a[0].unsigned_abs() as usize % kmax + (kmax > 1) as usize, op.a[1].unsigned_abs() as usize)
+                }
             }
             K_NEG => r.x[0] = resolve(op.a[0], caller, &own, n),
             K_AND | K_OR | K_XOR | K_IFF | K_EQ => {
@@ -589,6 +595,34 @@ impl World for SddMidWorld {
             w[k] = if c.below(6) == 0 { 0 } else { base[k] * (1 + c.below(3) as u32) };
         }
         w[K_VAR as usize] = w[K_VAR as usize].max(6);
+        // one run in 200: "wide nodes": a balanced vtree over 24 variables and comparators of 8-11 variable pairs
+        // across its root split, i.e. decision nodes with 256-2048 elements, built along different routes, negated,
+        // and combined with each other
+        let wide_chain = !huge && c.below(200) == 0;
+        if wide_chain {
+            cfg.insert("wide_chain".into(), 1);
+            cfg.insert("arena".into(), 2);
+            cfg.insert("nvars".into(), 24);
+            cfg.insert("vt_shape".into(), 3);
+            cfg.insert("linear_order".into(), 1);
+            cfg.insert("compress".into(), 1);
+            let mut ops = Vec::new();
+            // k = 8..=11 pairs (one run in eight goes to 11: more than 1024 elements)
+            let k = if c.below(8) == 0 { 11 } else { 8 + c.below(2) } as i64;
+            let off = o.below(12) as i64;
+            // handle 0: EQ_k(off); 1: its negation; 2: the same comparator again (re-built: same pointer expected);
+            // 3: a comparator over a shifted window; then combinations of the four
+            ops.push(Op { c: 0, k: K_IFFCHAIN, a: [k, off, 0, 0] });
+            ops.push(Op { c: 0, k: K_NEG, a: [0, 0, 0, 0] });
+            ops.push(Op { c: 0, k: K_IFFCHAIN, a: [k, off, 0, 0] });
+            ops.push(Op { c: 0, k: K_IFFCHAIN, a: [k - (o.below(2) as i64), off + 1 + o.below(3) as i64, 0, 0] });
+            // (a combination of two 2048-element nodes visits four million element pairs: one of those is enough)
+            for _ in 0..(if k >= 10 { 1 } else { 3 + o.below(4) }) {
+                let kind = if k >= 10 { *o.pick(&[K_OR, K_AND, K_EQ]) } else { *o.pick(&[K_OR, K_OR, K_AND, K_XOR, K_IFF, K_EQ, K_NEG]) };
+                ops.push(Op { c: 0, k: kind, a: [(o.below(5) << 1) as i64, (o.below(5) << 1) as i64, 0, 0] });
+            }
+            return Plan { world: "sddmid".into(), target: target.into(), seed: run_seed, cfg, ops, faults: Faults::Random { seed: mix(run_seed, 88), rates: [0; NUM_SITES] } };
+        }
         let len = 12 + o.below(if thorough { 120 } else { 60 });
         let mut ops = Vec::new();
         for _ in 0..(4 + c.below(6)) {
